@@ -10,6 +10,7 @@ import (
 	"bufio"
 	"encoding/json"
 	"fmt"
+	"io"
 	"math/rand"
 	"net/http"
 	"net/http/httptest"
@@ -18,6 +19,7 @@ import (
 	"runtime"
 	"sort"
 	"strconv"
+	"strings"
 	"sync"
 	"sync/atomic"
 	"time"
@@ -175,6 +177,81 @@ func affinityConcurrent(tier string) {
 	}
 }
 
+type countRT struct{ served []int64 }
+
+func (c *countRT) RoundTrip(r *http.Request) (*http.Response, error) {
+	idx := 0
+	fmt.Sscanf(r.URL.Host, "b%d.", &idx)
+	atomic.AddInt64(&c.served[idx], 1)
+	code := 200
+	if r.Header.Get("X-Want") == "500" {
+		code = 500
+	} else if r.Header.Get("X-Want") == "404" {
+		code = 404
+	}
+	return &http.Response{StatusCode: code, Status: fmt.Sprintf("%d x", code), Proto: "HTTP/1.1", ProtoMajor: 1, ProtoMinor: 1, Request: r,
+		Header: http.Header{"Content-Type": []string{"text/plain"}}, Body: io.NopCloser(strings.NewReader("ok")), ContentLength: 2}, nil
+}
+
+// accounting under real parallelism: many clients through the whole balancer at once; at quiescence the published
+// totals must be exactly what was sent (global and per backend), the gauges zero
+func metricsConcurrent(tier string) {
+	per := 400
+	if tier == "thorough" {
+		per = 4000
+	}
+	for _, strat := range []string{"round_robin", "least_connections", "ip_hash"} {
+		for _, g := range []int{8, 32} {
+			n := 3
+			c := &config.Config{}
+			c.Server.Port = 8080
+			for i := 1; i <= n; i++ {
+				c.Backends = append(c.Backends, config.BackendConfig{Name: fmt.Sprintf("b%d", i), Address: fmt.Sprintf("http://b%d.backend.test:80", i), Weight: 1})
+			}
+			c.LoadBalancer.Strategy = strat
+			lb, err := loadbalancer.NewLoadBalancer(c)
+			if err != nil {
+				panic(err)
+			}
+			rt := &countRT{served: make([]int64, n+1)}
+			for _, b := range lb.VerifBackends() {
+				b.ReverseProxy.Transport = rt
+			}
+			var wg sync.WaitGroup
+			start := make(chan struct{})
+			for w := 0; w < g; w++ {
+				wg.Add(1)
+				go func(w int) {
+					defer wg.Done()
+					<-start
+					for i := 0; i < per; i++ {
+						req := httptest.NewRequest("GET", "http://helios.test/", nil)
+						req.RemoteAddr = fmt.Sprintf("10.2.%d.%d:4000", w, i%250)
+						req.Header.Set("X-Want", []string{"200", "404", "500"}[i%3])
+						lb.ServeHTTP(httptest.NewRecorder(), req)
+					}
+				}(w)
+			}
+			close(start)
+			wg.Wait()
+			m := lb.GetMetricsCollector().GetMetrics()
+			bt, ba, served := []int64{}, []int64{}, []int64{}
+			for i := 1; i <= n; i++ {
+				bm := m.BackendMetrics[fmt.Sprintf("b%d", i)]
+				if bm == nil {
+					bt, ba = append(bt, -1), append(ba, -1)
+				} else {
+					bt, ba = append(bt, int64(bm.TotalRequests)), append(ba, int64(bm.ActiveConnections))
+				}
+				served = append(served, atomic.LoadInt64(&rt.served[i]))
+			}
+			emit(map[string]any{"kind": "metconc", "strategy": strat, "g": g, "sent": g * per, "total": m.TotalRequests, "ok": m.SuccessfulRequests,
+				"failed": m.FailedRequests, "limited": m.RateLimitedRequests, "btotal": bt, "bactive": ba, "served": served})
+			lb.Stop()
+		}
+	}
+}
+
 // jump hash: b(k,1)=0, b(k,n)<n, b(k,n+1) in {b(k,n), n} for keys of the sweep and n = 1..maxN
 func jumpSweep(full bool, maxN int, seed int64) {
 	workers := runtime.GOMAXPROCS(0)
@@ -271,6 +348,21 @@ func addressStrings() {
 				}
 				emit(map[string]any{"kind": "addr", "strategy": strat, "n": n, "addr": ai, "picks": picks})
 			}
+			// one client address, many connections: the source port is not part of the client's address
+			for hi, host := range []string{"10.1.2.3", "[2001:db8::1]", "[fe80::1%eth0]", "[::ffff:10.1.2.3]", "[fe80::a%25en0]"} {
+				picks := []int{}
+				for port := 40000; port < 40048; port++ {
+					req := httptest.NewRequest("GET", "/", nil)
+					req.RemoteAddr = fmt.Sprintf("%s:%d", host, port)
+					b := s.NextBackend(req)
+					idx := 0
+					if b != nil {
+						fmt.Sscanf(b.Name, "b%d", &idx)
+					}
+					picks = append(picks, idx)
+				}
+				emit(map[string]any{"kind": "addr", "strategy": strat, "n": n, "addr": 100 + hi, "picks": picks})
+			}
 		}
 	}
 }
@@ -331,6 +423,8 @@ func main() {
 			limiterConcurrent()
 		case "affconc":
 			affinityConcurrent(tier)
+		case "metconc":
+			metricsConcurrent(tier)
 		}
 	}
 	out.Flush()
